@@ -713,3 +713,10 @@ def UC(e):
     if isinstance(e, str):
         e = ast.parse(e, mode="eval").body
     return ast.unparse(canon_eq(e)).replace(" ", "")
+
+
+def argv(c):
+    """the arguments of a call in written order, positional ones first then keyword values.  After engine.normalize.keywordise_calls a call
+    of a known repository callable carries its former positional arguments as leading keywords in parameter order, so argv(c)[i] is what
+    c.args[i] was."""
+    return list(c.args) + [k.value for k in c.keywords if k.arg is not None]
